@@ -315,7 +315,7 @@ def install():
     # ---- event queue order -------------------------------------------------
     def _key(e):
         return (e.time.to(type(e.time).Unit.US).time,
-                e.event_type.value, e.task.unique_name if e.task is not None else "")
+                common.EVENT_RANK[e.event_type.name], e.task.unique_name if e.task is not None else "")
 
     @active
     def next_before(ctx, self):
